@@ -16,6 +16,9 @@ A *plan* is a JSON-able dict — the abstract input of spec/VerifyProps.tla with
      "targets": [role, ...]           the file's `targets` list (roles: device, attestation, ui, signer /
                                       ca, qe, att, quote); ui/pow "exists" = listed
      "brk": [role, ...]               elements that do not verify under their certifier; "chain" follows
+     "plen": int                      sgx: elements on the quote's certification path (<= 5: a production
+                                      shape is drawn, realise() records the real number); ledger: number
+                                      of unrelated extra elements in the file
      "seed": int,                     everything left open by the classes is drawn from Random(seed)
      "variant": int (optional)}       ... except the listed alternatives (which foreign header, which link
                                       is corrupted how, how a file is malformed, ...): variant k takes the
@@ -410,10 +413,12 @@ ELEMENT_BREAKS = {"device": ["sig_other_key", "sig_flip", "msg_flip_other", "msg
                   "attestation": ["sig_other_key", "sig_flip", "msg_flip_other", "msg_flip_key"],
                   "ui": LEAF_BREAKS, "signer": LEAF_BREAKS}
 LEDGER_ROLES = ("device", "attestation", "ui", "signer")
-SGX_ROLES = ("ca", "qe", "att", "quote")
+SGX_ROLES = ("ca", "mid", "qe", "att", "quote")
 LEDGER_PATH = {"device": {"device"}, "attestation": {"device", "attestation"},
                "ui": {"device", "attestation", "ui"}, "signer": {"device", "attestation", "signer"}}
-SGX_PATH = {"ca": {"ca"}, "qe": {"ca", "qe"}, "att": {"ca", "qe", "att"}, "quote": {"ca", "qe", "att", "quote"}}
+SGX_PATH = {"ca": {"ca"}, "mid": {"ca", "mid"}, "qe": {"ca", "mid", "qe"}, "att": {"ca", "mid", "qe", "att"},
+            "quote": {"ca", "mid", "qe", "att", "quote"}}
+SCALE = {"ledger": (250, 300), "sgx": (255, 256, 257, 258, 300, 400)}
 
 
 def sync(plan):
@@ -423,10 +428,28 @@ def sync(plan):
     path = LEDGER_PATH if led else SGX_PATH
     plan["brk"] = [r for r in order if r in set(plan.get("brk", []))]
     plan.setdefault("targets", ["ui", "signer"] if led else ["quote"])
+    plan.setdefault("plen", 0 if led else 5)
     for t, role in ((plan["ui"], "ui"), (plan["pow"], "signer")) if led else ((plan["pow"], "quote"),):
         t["exists"] = "t" if role in plan["targets"] else "f"
         t["chain"] = "broken" if path[role] & set(plan["brk"]) else "intact"
     return plan
+
+
+_JUNK = []
+
+
+def _junk_elements(n):
+    """n well-formed, properly signed version-1 elements of unrelated chains (a pool built once per
+    process; the file keeps them in front of the genuine elements, whose names they share)."""
+    if len(_JUNK) < n:
+        r = random.Random(len(_JUNK) + 12345)
+        while len(_JUNK) < n:
+            spec = {"targets": [], "elements": [
+                {"name": "device", "signed_by": "root"}, {"name": "attestation", "signed_by": "device"},
+                {"name": "ui", "signed_by": "attestation", "tweak": "random", "message": r.randbytes(109)},
+                {"name": "signer", "signed_by": "attestation", "tweak": "random", "message": r.randbytes(127)}]}
+            _JUNK.extend(certv1.build(spec, r, backend="libsecp").cert["elements"])
+    return json.loads(json.dumps(_JUNK[:n]))
 
 
 def _ledger_chain(rr, ui_msg, pow_msg, with_ui=True, with_signer=True):
@@ -493,6 +516,8 @@ def _realise_ledger(plan, keys, directory, tag, rr, real):
                           ch.root_hex + "00"))
     sub["root"] = root
     cert = ch.cert
+    if plan["plen"] > 0:                    # unrelated elements ahead of the genuine ones (which win by name)
+        cert["elements"] = _junk_elements(plan["plen"]) + cert["elements"]
     if other_platform:
         spec = certv2.default_spec(2)
         spec["quote"]["custom_data"] = pow_msg
@@ -507,6 +532,7 @@ def _realise_ledger(plan, keys, directory, tag, rr, real):
 
 
 SGX_ELEMENT_BREAKS = {"ca": ["x509_sig", "x509_expired", "x509_notyet"],
+                      "mid": ["x509_sig", "x509_expired", "x509_notyet"],
                       "qe": ["x509_sig", "x509_expired", "x509_notyet"],
                       "att": ["att_sig", "att_bind", "reparent"],
                       "quote": ["quote_sig", "quote_bind", "custom_flip", "quote_flip"]}
@@ -524,7 +550,14 @@ def _realise_sgx(plan, keys, directory, tag, rr, real):
     pw = plan["pow"]
     pow_msg = _pow_message(plan, keys, rr, sub)
     named = set(plan["brk"]) | set(plan["targets"])
-    depth = rr.choice((2, 2, 3)) if named & {"ca", "qe"} else rr.choice((1, 2, 2, 2, 3))
+    if plan["plen"] > 5:                    # at scale: plen - 2 X.509 elements above the attestation key
+        depth = plan["plen"] - 2
+    elif "mid" in named:
+        depth = 3
+    else:
+        depth = rr.choice((2, 2, 3)) if named & {"ca", "qe"} else rr.choice((1, 2, 2, 2, 3))
+    plan["plen"] = depth + 2
+    sub["x509_elements"] = depth
     spec = certv2.default_spec(depth)
     spec["quote"]["custom_data"] = pow_msg
     spec["shuffle"] = rr.random() < 0.3
@@ -534,7 +567,7 @@ def _realise_sgx(plan, keys, directory, tag, rr, real):
     for role in plan["brk"]:
         kind = _pick(rr, SGX_ELEMENT_BREAKS[role])
         sub["breaks"].append([kind, role])
-        i = 0 if role == "ca" else -1
+        i = {"ca": 0, "mid": depth // 2, "qe": depth - 1}.get(role, 0)
         if kind == "x509_expired":
             spec["x509"][i]["time"] = "Expired"
         elif kind == "x509_notyet":
@@ -560,7 +593,8 @@ def _realise_sgx(plan, keys, directory, tag, rr, real):
         cert = certv2.corrupt(cert, "quote", "message", rr.randrange(certv2.QUOTE_SIZE), 1 << rr.randrange(8))
     real.signed["pow"] = pow_msg
     real.signed["quote"] = mat["quote"]["message"]
-    names = {"ca": mat["names"]["x509"][0], "qe": mat["names"]["x509"][-1], "att": mat["names"]["attkey"],
+    names = {"ca": mat["names"]["x509"][0], "mid": mat["names"]["x509"][depth // 2],
+             "qe": mat["names"]["x509"][-1], "att": mat["names"]["attkey"],
              "quote": mat["names"]["quote"]}
     cert["targets"] = [names[r] for r in plan["targets"]]
     sub["targets"] = cert["targets"]
@@ -824,7 +858,7 @@ def abstract_of(plan):
                      "ents": [{"path": list(n.encode("utf-8")), "key": k} for (n, k) in plan["file"]["ents"]]},
             "btc": list(BTC_PATH.encode()),
             "mh": {"enc": plan["mh"]["enc"], "pre": list(plan["mh"]["pre"])},
-            "targets": list(plan["targets"]), "brk": list(plan["brk"]),
+            "targets": list(plan["targets"]), "brk": list(plan["brk"]), "plen": int(plan["plen"]),
             "ui": {k: plan["ui"][k] for k in _UI_FIELDS} if plan["plat"] == "ledger" else dict(NA_UI),
             "pow": {k: plan["pow"][k] for k in _POW_FIELDS}}
 
@@ -901,7 +935,7 @@ def plan_from_behaviour(b, rng):
             "file": {"kind": inp["file"]["kind"],
                      "ents": [[names[tuple(e["path"])], e["key"]] for e in inp["file"]["ents"]]},
             "mh": {"enc": inp["mh"]["enc"], "pre": list(inp["mh"]["pre"])},
-            "targets": list(inp["targets"]), "brk": list(inp["brk"]),
+            "targets": list(inp["targets"]), "brk": list(inp["brk"]), "plen": inp["plen"],
             "ui": dict(inp["ui"]), "pow": dict(inp["pow"]), "seed": rng.getrandbits(48)}
     for t in (plan["ui"], plan["pow"]):
         if t.get("m") == "randn":               # "many arbitrary bytes": how many is open
@@ -938,6 +972,8 @@ def random_plan(rng):
             "pow": dict(PLAIN, exists="t", chain="intact",
                         hdr=rng.choice(("current", "current", "legacy")) if plat == "ledger" else "current"),
             "targets": ["ui", "signer"] if plat == "ledger" else ["quote"], "brk": [],
+            "plen": rng.choice(SCALE[plat] + (rng.randrange(6, 300),)) if rng.random() < 0.04
+            else (0 if plat == "ledger" else 5),
             "seed": rng.getrandbits(48)}
     for _ in range(rng.choice((0, 0, 1, 1, 1, 2, 2, 3, 5))):
         deviate(plan, rng)
